@@ -362,7 +362,11 @@ void fiber_manager_do_maintenance() {
     fiber_mutex_t* const to_unlock = manager->mutex_to_unlock;
     manager->mutex_to_unlock = NULL;
     FIBER_VERIF_POINT(FV_MAINT_PUBLISH, FV_MAINT_MUTEX_UNLOCK, to_unlock);
+    // waking the next owner must not switch contexts: this fiber is still
+    // completing the previous switch (and may be the thread's own fiber)
+    manager->in_maintenance = 1;
     fiber_mutex_unlock_internal(to_unlock);
+    manager->in_maintenance = 0;
   }
 
   if (manager->spinlock_to_unlock) {
@@ -459,8 +463,14 @@ int fiber_manager_wake_from_mpsc_queue(fiber_manager_t* manager,
     } else if (count > 0) {
       manager->wake_mpsc_spin_count += 1;
       FIBER_VERIF_POINT(FV_WAKE_SPIN, fifo, 0);
-      fiber_manager_yield(manager);
-      manager = fiber_manager_get();
+      if (manager->in_maintenance) {
+        // the waiter has announced itself and is about to enqueue (it cannot
+        // be suspended before it does), so spinning is safe
+        cpu_relax();
+      } else {
+        fiber_manager_yield(manager);
+        manager = fiber_manager_get();
+      }
     }
   } while (wake_count < count);
   return wake_count;
